@@ -17,6 +17,23 @@ theorem C13_tie_signature_checked :
     ExoVerif.Gen.oracleSigResultUsed = true ∧
     ExoVerif.Gen.oracleSigGuardCond = "!simulate && !pubKey.VerifySignature(bytesToSign, data.Signature)" := by decide
 
+/-- Both oracle ante branches tie the number of SignerInfos / enumerated signatures to the number
+of signers (the `tx.infos.length ≠ tx.signers.length` test of `anteHandle`); if either check is
+removed or weakened (F-10c) this breaks. -/
+theorem C13_tie_signer_count_checked : ExoVerif.Gen.oracleSignerCountChecked = true := by decide
+
+/-- checkTimestamp, regenerated: with the block time given in nanoseconds (`sec·10⁹ + frac`,
+`0 ≤ frac < 10⁹`) and a proposal timestamp of whole seconds (the layout has second precision), the
+Go condition `now.Add(maxFutureOffset).Before(t)` is exactly the model's `blockTime + 5 < ts` on the
+*floor* of the block time — for every sub-second part. Rounding or truncating `now` differently
+makes the kernel fail to regenerate or this equality fail. -/
+theorem C13_tie_timestamp (sec frac ts : Int) (h0 : 0 ≤ frac) (h1 : frac < 1000000000) :
+    ExoVerif.Gen.oracleTimestampTooFarAhead (sec * 1000000000 + frac)
+      (ExoVerif.Gen.oracleMaxFutureOffsetSec * 1000000000) (ts * 1000000000) = decide (sec + 5 < ts) := by
+  unfold ExoVerif.Gen.oracleTimestampTooFarAhead ExoVerif.Gen.oracleMaxFutureOffsetSec
+  simp only [decide_eq_decide]
+  omega
+
 theorem C13_tie_shapes :
     ExoVerif.Gen.oracleNonceShape.length = 2 ∧ ExoVerif.Gen.oracleTimestampShape.length = 2 := by decide
 
